@@ -69,6 +69,20 @@ def migration_files():
     return out
 
 
+RELEASED_DIR = Path(__file__).resolve().parent.parent / "data" / "c28_released"
+
+
+def released_files():
+    """[(version, file name, sql text)] of the migration files AS RELEASED (verbatim copies kept with the
+    harness, see harness/data/c28_released/README.md) -- what databases in the field were built from."""
+    out = []
+    for f in sorted(RELEASED_DIR.glob("*.sql"), key=lambda p: p.name):
+        txt = f.read_text()
+        m = _VERSION.search(txt.splitlines()[0] if txt else "")
+        out.append((int(m.group(1)) if m else 0, f.name, txt))
+    return out
+
+
 # ------------------------------------------------------------------ projection
 
 def _norm_sql(s):
@@ -197,14 +211,14 @@ def project(path, ref: Reference):
 
 # ------------------------------------------------------------------ start states
 
-def _prefix_package(workdir, ref: Reference, k):
-    """An importable package holding the first k real migration files (what release k shipped)."""
-    name = "verif_mig_prefix_%d" % k
+def _prefix_package(workdir, ref: Reference, k, files=None, tag="prefix"):
+    """An importable package holding the first k migration files (what release k shipped)."""
+    name = "verif_mig_%s_%d" % (tag, k)
     d = Path(workdir) / "pkgs" / name
     if not d.exists():
         d.mkdir(parents=True)
         (d / "__init__.py").write_text("")
-        for v, fname, sql in ref.files[:k]:
+        for v, fname, sql in (files if files is not None else ref.files)[:k]:
             (d / fname).write_text(sql)
     root = str(Path(workdir) / "pkgs")
     if root not in sys.path:
@@ -241,8 +255,17 @@ def _consolidated_ddl(objs):
 
 
 def build_start(path, workdir, ref: Reference, kind, k=0, style="scripts"):
-    """kind: fresh | prefix (recorded in schema_migrations by the real code) | legacy (user_version=k)."""
+    """kind: fresh | prefix (recorded in schema_migrations by the real code) | legacy (user_version=k), both from
+    the working tree's migration files; rel_prefix | rel_legacy: the same two shapes built from the first k
+    migration files AS RELEASED (harness/data/c28_released) -- a database an earlier release left behind."""
     path = Path(path)
+    files = ref.files
+    if kind in ("rel_prefix", "rel_legacy"):
+        files = released_files()
+        kind = kind[4:]
+        tag = "released"
+    else:
+        tag = "prefix"
     for suffix in ("", "-wal", "-shm", "-journal"):
         q = Path(str(path) + suffix)
         if q.exists():
@@ -255,7 +278,7 @@ def build_start(path, workdir, ref: Reference, kind, k=0, style="scripts"):
         if kind == "prefix":
             try:
                 # what release k left behind: the real migrator over the first k real SQL files
-                _migrate_mod().run_migrations(conn, sources=[("server", _prefix_package(workdir, ref, k))])
+                _migrate_mod().run_migrations(conn, sources=[("server", _prefix_package(workdir, ref, k, files, tag))])
                 conn.commit()
             except Exception:  # noqa: BLE001 -- a broken migrator must not break the construction of start states
                 conn.close()
@@ -265,13 +288,13 @@ def build_start(path, workdir, ref: Reference, kind, k=0, style="scripts"):
                         q.unlink()
                 conn = sqlite3.connect(str(path))
                 conn.executescript(_migrate_mod()._SCHEMA_MIGRATIONS_DDL)
-                for v, fname, sql in ref.files[:k]:
+                for v, fname, sql in files[:k]:
                     conn.executescript(sql)
                     conn.execute("INSERT INTO schema_migrations (package, version) VALUES ('server', ?)", (v,))
                 conn.commit()
         elif kind == "legacy":
-            if style == "scripts":
-                for v, fname, sql in ref.files[:k]:
+            if style == "scripts" or tag == "released":
+                for v, fname, sql in files[:k]:
                     conn.executescript(sql)
             else:
                 conn.executescript(_consolidated_ddl(ref.schemas[k]))
